@@ -8,6 +8,8 @@ every waiter's `Notified` snapshot is at most the current generation, nobody is 
 Holds when the other `set_status` callers publish only values below `Stopping`.
 -/
 
+set_option linter.unusedSimpArgs false
+
 namespace ExitRace
 
 /-- position of the exiter in the exit sequence -/
@@ -249,7 +251,7 @@ theorem forall_set {α : Type} {P : α → Prop} {l : List α} {i : Nat} {x : α
 the status is `Stopped` and the cleanup is complete. -/
 theorem okNow_of_stage {g : G} (h : Inv g) (h12 : 12 ≤ g.exiter.pc.stage) : okNow g = true := by
   obtain ⟨a1,a2,a3,a4,a5,a6,a7,a8,a9,a10,a11,a12,a13,a14,a15,a16⟩ := h.sh
-  simp only [okNow, Flags.complete, Bool.and_eq_true, beq_iff_eq, Bool.or_eq_true, Bool.not_eq_true']
+  simp only [okNow, snapshotOk, Flags.complete, Bool.and_eq_true, beq_iff_eq, Bool.or_eq_true, Bool.not_eq_true']
   refine ⟨a4 h12, ⟨⟨⟨⟨⟨⟨⟨a5 (by omega), a6 (by omega)⟩, a7 (by omega)⟩, a8 (by omega)⟩, a10 (by omega)⟩,
     a11 (by omega)⟩, a12 (by omega)⟩, ?_⟩⟩
   cases hp : g.exiter.hasPostStop
